@@ -259,7 +259,7 @@ def _key(o):
     return 'helper:{}:{}'.format(o.helper, what)
 
 
-def run_uf(ctx, prop='C17'):
+def run_uf(ctx, prop='C17', conformance_runs=True):
     from contracts import cli_helpers as K
     t0 = time.time()
     src = U.Src(core.REPO)
@@ -333,6 +333,8 @@ def run_uf(ctx, prop='C17'):
                'uninterpreted; argparse semantics of add_argument (dest/default/nargs/store_*/exclusive groups) modelled as documented '
                'by argparse; compose_two_parsers and the graph actions recognised structurally in the real source; the token level of '
                'custom actions (PHPArgs, is-first-a-number test) is bounded-tier only; method calls on values are assumed pure')
+    if conformance_runs:
+        conformance(ctx, reports)
     ctx.assume('contracts/cli_helpers.py: written from the help texts (anchors re-checked against the real help strings on every run)')
     return reports
 
@@ -378,6 +380,7 @@ def conformance(ctx, reports, limit=120):
     means the model (shape / executor / contract) or the token layer is off: reported as PROOF-DEGRADED, never as a
     verdict of this tier (the bounded tier decides)."""
     runs = bad = skipped = 0
+    refused = []
     for rep in reports:
         if rep.unsupported or rep.stale or any(not o.ok for o in rep.obligations):
             continue
@@ -398,8 +401,9 @@ def conformance(ctx, reports, limit=120):
             try:
                 with contextlib.redirect_stdout(io.StringIO()):
                     ok = replay_cli(**args)
-            except Exception:
+            except Exception as e:
                 skipped += 1          # the synthesised numbers are refused by the generator (e.g. not a power of two)
+                refused.append('{}: {}'.format(' '.join(args['argv']), str(e).strip().splitlines()[0][:80] if str(e).strip() else type(e).__name__))
                 continue
             runs += 1
             if not ok:
@@ -409,5 +413,5 @@ def conformance(ctx, reports, limit=120):
                 print('PROOF-DEGRADED {}: encoding conformance run `{}` disagrees with the proved term {}; decided by the bounded tier'.format(
                     rep.name, ' '.join(args['argv']), U.show(compat[0].term)))
     ctx.proof['conformance_runs'] += runs
-    ctx.section('uf_conformance', runs=runs, disagreements=bad, refused_by_generator=skipped)
+    ctx.section('uf_conformance', runs=runs, disagreements=bad, refused_by_generator=refused)
     return runs, bad, skipped
